@@ -140,7 +140,7 @@ def rule_a(ctx):
                 ctx.ob(R, f.qname, f"{label} generator arguments are exact negations", ok, desc, ia[-1])
             elif isinstance(iv, ast.Call) and norm(iv.func) == "np.linalg.inv":
                 ctx.ob(R, f.qname, f"{label} inverse is np.linalg.inv of the forward matrix", norm(iv.args[0]) == norm(fv), f"{norm(fv)} / {norm(iv)}", ia[-1])
-            elif norm(fv).startswith("np.eye(") and norm(fv) == norm(iv):
+            elif norm(fv).startswith(("np.eye(", "np.diag(np.ones(")) and norm(fv) == norm(iv):
                 ctx.ob(R, f.qname, f"{label} both start at the identity", True, norm(fv), ia[-1])
             elif not in_loop:
                 raise AnalysisError(f"{f.qname}: unrecognised forward/inverse pair `{norm(fv)[:60]}` / `{norm(iv)[:60]}`")
@@ -153,7 +153,7 @@ def rule_a(ctx):
                     if isinstance(l2, list) and owner in l2:
                         sib = l2[:l2.index(owner)]
                 init = {self_attr(s.targets[0]): norm(s.value) for s in (sib or []) if isinstance(s, ast.Assign) and self_attr(s.targets[0])}
-                ctx.ob(R, f.qname, f"{label} both accumulators start at the identity", init.get("rotation", "").startswith("np.eye(") and init.get("rotation") == init.get("rotation_inv"),
+                ctx.ob(R, f.qname, f"{label} both accumulators start at the identity", init.get("rotation", "").startswith(("np.eye(", "np.diag(np.ones(")) and init.get("rotation") == init.get("rotation_inv"),
                        str(init), owner)
     ctx.floor(R, 7)
 
